@@ -119,6 +119,16 @@ Definition classify (c : Z) : cls :=
   else if c =? 37 then CPct
   else COther.
 
+(* fix (C14-6): 'h' (as in %hd, %hhu) is skipped like a flag by the serializer and copied into the rebuilt directive by
+   the decoder - the argument of such a conversion is passed as int.  As found both scanners left the directive at it. *)
+Definition classify_fx (fx : bool) (c : Z) : cls := if fx && (c =? 104) then CFlag else classify c.
+
+(* text of a directive after a '*' whose int argument is v.   fix (C14-5): a negative value right after '.' is a
+   negative precision, which printf takes as "no precision": the '.' is dropped; otherwise (and always as found) the
+   decimal text of the value is appended *)
+Definition star_text (fx : bool) (acc : list Z) (v : Z) : list Z :=
+  if fx && (v <? 0) && (last acc 0 =? 46) then removelast acc else acc ++ dec v.
+
 (* ------------------------------------------------------------------ arguments (the va_list) *)
 Inductive arg :=
 | AInt (v : Z)        (* int (also the promoted char of %c and the int of '*') *)
@@ -199,7 +209,7 @@ Fixpoint ser_go (fx : bool) (max : Z) (f : list Z) (m : smode) (st : sst) : outc
   | c :: f' =>
     match m with
     | SScan =>
-      match classify c with
+      match classify_fx fx c with
       | CNul => Done (s_loc st) (s_buf st) 0
       | CPct =>
         (* fix: a precision belongs to one conversion only *)
@@ -208,7 +218,7 @@ Fixpoint ser_go (fx : bool) (max : Z) (f : list Z) (m : smode) (st : sst) : outc
       | _ => ser_go fx max f' SScan st
       end
     | SDir tl tll =>
-      match classify c with
+      match classify_fx fx c with
       | CNul => Done (s_loc st) (s_buf st) 0
       | CFlag => ser_go fx max f' (SDir tl tll) st
       | CDot => ser_go fx max f' (SDir tl tll) (mkS (s_buf st) (s_loc st) (s_len st) true (s_args st))
@@ -421,7 +431,7 @@ Fixpoint des_go (fx : bool) (snp : oracle) (rec : list Z) (blen n : Z)
     match f with
     | [] => des_finish fx n (rev lit) st
     | c :: f' =>
-      match classify c with
+      match classify_fx fx c with
       | CNul => des_finish fx n (rev lit) st
       | CPct =>
         (* copy from current to the next %   fix: bounded by the room left in string[] *)
@@ -453,7 +463,7 @@ Fixpoint des_go (fx : bool) (snp : oracle) (rec : list Z) (blen n : Z)
     | [] => des_top fx n st (fun st' => des_finish fx n [] st')
     | c :: f' =>
       let next := fun st' => des_go fx snp rec blen n f' (DScan []) st' in
-      match classify c with
+      match classify_fx fx c with
       | CNul => des_top fx n st (fun st' => des_finish fx n [] st')
       | CFlag | CDot | CDigit =>
         des_put mini fpos c (fun m1 p1 => des_go fx snp rec blen n f' (DDir m1 p1 tl tll) st)
@@ -461,15 +471,18 @@ Fixpoint des_go (fx : bool) (snp : oracle) (rec : list Z) (blen n : Z)
         if fx && (blen <? d_pos st + LF_SIZEOF_INT) then des_stop st
         else
           let v := to_signed (8 * LF_SIZEOF_INT) (le_val (rd_bytes rec (d_pos st) (Z.to_nat LF_SIZEOF_INT))) in
+          let st' := mkD (d_buf st) (d_loc st) (wrap32 (d_pos st + LF_SIZEOF_INT))
+                         (Z.max (d_hw st) (d_pos st + LF_SIZEOF_INT)) in
+          (* fix (C14-5): "if (arg_int < 0 && fmt_pos > 0 && fmt[fmt_pos - 1] == '.') fmt_pos--;" *)
+          if fx && (v <? 0) && (0 <? fpos) && (rd mini (fpos - 1) =? 46) then
+            des_go fx snp rec blen n f' (DDir mini (fpos - 1) tl tll) st'
+          else
           let digits := dec v in
           let nn := wrapsz (LF_MINI_FORMAT_STR_LEN - fpos) in
           let w := if nn =? 0 then [] else takeZ (nn - 1) digits ++ [0] in
           match store_bytes mini fpos w with
           | None => OutOfBounds 3
-          | Some m1 =>
-            des_go fx snp rec blen n f' (DDir m1 (fpos + zlen digits) tl tll)
-                   (mkD (d_buf st) (d_loc st) (wrap32 (d_pos st + LF_SIZEOF_INT))
-                        (Z.max (d_hw st) (d_pos st + LF_SIZEOF_INT)))
+          | Some m1 => des_go fx snp rec blen n f' (DDir m1 (fpos + zlen digits) tl tll) st'
           end
       | CEll =>
         des_put mini fpos c (fun m1 p1 =>
@@ -561,7 +574,7 @@ Definition snp_writes_at_most_n (snp : oracle) : Prop :=
 
 (* ------------------------------------------------------------------ reference: what printf prints *)
 (* printf_spec walks the format with the C grammar  % flags* width? (. precision?)? length? conversion ;
-   a '*' takes an int argument and stands for its decimal text; one conversion is rendered by
+   a '*' takes an int argument and stands for its decimal text (a negative precision for "no precision"); one conversion is rendered by
    [render1 directive-text kind argument-bytes]; "%%" is '%'.  A %s with a literal precision P > 0 is
    rendered from the first P bytes of the string (ISO C: no more than P bytes are read or written), a
    NULL string as the text "(null)" (what the serializer stores by design).  Formats / arguments outside the
@@ -594,6 +607,8 @@ Definition str_arg (d : pdir) (a : arg) : list Z :=
   end.
 
 Definition pd_add (d : pdir) (t : list Z) : pdir := mkP (p_acc d ++ t) (p_l d) (p_prec d) (p_plen d).
+(* a '*' with int argument v: its decimal text; a negative precision (right after '.') means no precision *)
+Definition pd_star (d : pdir) (v : Z) : pdir := mkP (star_text true (p_acc d) v) (p_l d) (p_prec d) (p_plen d).
 
 Fixpoint printf_spec (render1 : list Z -> Z -> list Z -> list Z) (f : list Z) (m : pmode) (args : list arg) : list Z :=
   match f with
@@ -601,7 +616,7 @@ Fixpoint printf_spec (render1 : list Z -> Z -> list Z -> list Z) (f : list Z) (m
   | c :: f' =>
     match m with
     | PLit =>
-      match classify c with
+      match classify_fx true c with
       | CNul => []
       | CPct => printf_spec render1 f' (PDir (mkP [37] 0 false 0)) args
       | _ => c :: printf_spec render1 f' PLit args
@@ -609,14 +624,14 @@ Fixpoint printf_spec (render1 : list Z -> Z -> list Z -> list Z) (f : list Z) (m
     | PDir d =>
       let '(a, args') := next_arg args in
       let conv := fun kind (bytes : list Z) => render1 (p_acc d ++ [c]) kind bytes ++ printf_spec render1 f' PLit args' in
-      match classify c with
+      match classify_fx true c with
       | CFlag => printf_spec render1 f' (PDir (pd_add d [c])) args
       | CDot => printf_spec render1 f' (PDir (mkP (p_acc d ++ [c]) (p_l d) true (p_plen d))) args
       | CDigit =>
         printf_spec render1 f'
                     (PDir (mkP (p_acc d ++ [c]) (p_l d) (p_prec d)
                                (if p_prec d then p_plen d * 10 + (c - 48) else p_plen d))) args
-      | CStar => printf_spec render1 f' (PDir (pd_add d (dec (to_signed (8 * LF_SIZEOF_INT) (arg_raw a))))) args'
+      | CStar => printf_spec render1 f' (PDir (pd_star d (to_signed (8 * LF_SIZEOF_INT) (arg_raw a)))) args'
       | CEll => printf_spec render1 f' (PDir (mkP (p_acc d ++ [c]) (p_l d + 1) (p_prec d) (p_plen d))) args
       | CZee | CTee | CJay => printf_spec render1 f' (PDir (mkP (p_acc d ++ [c]) 2 (p_prec d) (p_plen d))) args
       | CInt => conv 1 (scalar_bytes (int_size d) a)
